@@ -326,3 +326,36 @@ fn c35_v_twin() {
     core::mem::forget(r);
     core::mem::forget(w);
 }
+
+// ------------------------------------------------------------------ mk_alonzo_vk_wits_check_list
+
+/// The shared helper that turns the witness set into the (covered, witness) work list used by every era's
+/// check_vkey_input_wits / check_witnesses must keep EVERY witness, in order, flagged uncovered: a witness that
+/// is dropped here is never handed to verify_signature. Keys may coincide (symbolic first byte), signatures differ.
+/// bound: 2 witnesses (and None) with one-byte symbolic keys and signatures (the helper is length-agnostic); unwind 8
+#[kani::proof]
+#[kani::unwind(8)]
+#[kani::stub(std::fmt::format, crate::stubs::fmt_format_stub)]
+fn c35_q_check_list_keeps_every_witness() {
+    use pallas_validate::utils::{mk_alonzo_vk_wits_check_list, ValidationError, AlonzoError};
+    // the helper does not look at lengths: one-byte keys and signatures keep a (possibly key-comparing) body small
+    let mk = |kb: u8, sb: u8| VKeyWitness { vkey: Bytes::from(vec![kb]), signature: Bytes::from(vec![sb]) };
+    let (k0, k1, s0, s1): (u8, u8, u8, u8) = (kani::any(), kani::any(), kani::any(), kani::any());
+    let wits = Some(vec![mk(k0, s0), mk(k1, s1)]);
+    let r = mk_alonzo_vk_wits_check_list(&wits, ValidationError::Alonzo(AlonzoError::VKWitnessMissing));
+    match &r {
+        Ok(l) => {
+            assert!(l.len() == 2, "work list has one entry per witness of the witness set");
+            assert!(!l[0].0 && !l[1].0, "every witness starts uncovered");
+            assert!(l[0].1.vkey.as_slice()[0] == k0 && l[0].1.signature.as_slice()[0] == s0, "work list entry 0 is witness 0");
+            assert!(l[1].1.vkey.as_slice()[0] == k1 && l[1].1.signature.as_slice()[0] == s1, "work list entry 1 is witness 1");
+        }
+        Err(_) => assert!(false, "a present witness set yields a work list"),
+    }
+    kani::cover!(k0 == k1 && s0 != s1, "same key, different signatures");
+    core::mem::forget(r);
+    core::mem::forget(wits);
+    let none = mk_alonzo_vk_wits_check_list(&None, ValidationError::Alonzo(AlonzoError::VKWitnessMissing));
+    assert!(none.is_err(), "an absent witness set is the given error");
+    core::mem::forget(none);
+}
